@@ -43,6 +43,7 @@ type Solver struct {
 	log       io.Writer // optional transcript
 	nEmitted  int
 	restarts  int
+	ufDecl    map[string]bool
 }
 
 func NewSolver(tt *TermTable, argv []string, timeoutMs int) (*Solver, error) {
@@ -75,6 +76,7 @@ func (s *Solver) start() error {
 	s.out = bufio.NewReaderSize(out, 1<<16)
 	s.emitted = nil
 	s.nEmitted = 0
+	s.ufDecl = nil
 	s.send("(set-option :print-success false)")
 	s.send("(set-option :produce-models true)")
 	if strings.Contains(s.argv[0], "z3") {
@@ -157,6 +159,13 @@ func (s *Solver) emit(t *Term) {
 		}
 		s.emitted[x.id] = true
 		s.nEmitted++
+		if x.op == OpUF && !s.ufDecl[x.name] {
+			if s.ufDecl == nil {
+				s.ufDecl = map[string]bool{}
+			}
+			s.ufDecl[x.name] = true
+			s.send(fmt.Sprintf("(declare-fun |uf_%s| (%s) %s)", x.name, s.tt.sortOf(x.a[0]), s.tt.sortOf(x)))
+		}
 		if x.op == OpVar {
 			s.send(fmt.Sprintf("(declare-const %s %s)", x.ref(), s.tt.sortOf(x)))
 		} else {
@@ -225,6 +234,12 @@ func (s *Solver) GetModel() *Model {
 			vars = append(vars, v)
 		}
 	}
+	for _, v := range s.tt.ufApps {
+		if v.id < len(s.emitted) && s.emitted[v.id] {
+			vars = append(vars, v)
+			m.ufs = append(m.ufs, v)
+		}
+	}
 	if len(vars) == 0 {
 		return m
 	}
@@ -289,7 +304,7 @@ func (s *Solver) parseValues(txt string, vars []*Term, m *Model) {
 	rest := txt
 	for _, v := range vars {
 		key := v.ref()
-		i := strings.Index(rest, key+" ")
+		i := strings.Index(rest, "("+key+" ")
 		if i < 0 {
 			// z3 may print simple symbols without bars
 			key = strings.Trim(key, "|")
@@ -297,8 +312,8 @@ func (s *Solver) parseValues(txt string, vars []*Term, m *Model) {
 			if i < 0 {
 				continue
 			}
-			i++
 		}
+		i++
 		rest = rest[i+len(key)+1:]
 		rest = strings.TrimLeft(rest, " \n")
 		var val uint64
